@@ -56,6 +56,8 @@ type Term struct {
 	Lo   uint8
 	Name string
 	Args []*Term
+	SV   *Term // the only variable occurring in the term, when there is exactly one
+	MV   bool  // more than one variable occurs
 }
 
 type key struct {
@@ -115,6 +117,7 @@ func (s *Store) mk(op Op, w uint8, val uint64, hi, lo uint8, name string, args .
 			return t
 		}
 		t := &Term{Op: op, W: w, ID: s.next, Val: val, Hi: hi, Lo: lo, Name: name, Args: append([]*Term(nil), args...)}
+		t.setVars()
 		s.next++
 		s.nary[ks] = t
 		return t
@@ -123,9 +126,31 @@ func (s *Store) mk(op Op, w uint8, val uint64, hi, lo uint8, name string, args .
 		return t
 	}
 	t := &Term{Op: op, W: w, ID: s.next, Val: val, Hi: hi, Lo: lo, Name: name, Args: append([]*Term(nil), args...)}
+	t.setVars()
 	s.next++
 	s.tab[k] = t
 	return t
+}
+
+func (t *Term) setVars() {
+	if t.Op == OpVar {
+		t.SV = t
+		return
+	}
+	for _, a := range t.Args {
+		if a.MV {
+			t.MV, t.SV = true, nil
+			return
+		}
+		if a.SV != nil {
+			if t.SV == nil {
+				t.SV = a.SV
+			} else if t.SV != a.SV {
+				t.MV, t.SV = true, nil
+				return
+			}
+		}
+	}
 }
 
 func (s *Store) Const(w uint8, v uint64) *Term { return s.mk(OpConst, w, v&mask(w), 0, 0, "") }
@@ -296,77 +321,60 @@ func (s *Store) Not(a *Term) *Term {
 	return s.mk(OpNot, 0, 0, 0, 0, "", a)
 }
 
-func (s *Store) And(args ...*Term) *Term {
-	var out []*Term
-	seen := map[uint32]bool{}
-	for _, a := range args {
-		if a.IsFalse() {
-			return s.False
-		}
-		if a.IsTrue() || seen[a.ID] {
-			continue
-		}
-		if a.Op == OpAnd {
-			for _, b := range a.Args {
-				if !seen[b.ID] {
-					seen[b.ID] = true
-					out = append(out, b)
-				}
-			}
-			continue
-		}
-		seen[a.ID] = true
-		out = append(out, a)
-	}
-	for _, a := range out {
-		if a.Op == OpNot && seen[a.Args[0].ID] {
-			return s.False
+func containsID(ts []*Term, id uint32) bool {
+	for _, t := range ts {
+		if t.ID == id {
+			return true
 		}
 	}
-	switch len(out) {
-	case 0:
-		return s.True
-	case 1:
-		return out[0]
-	}
-	return s.mk(OpAnd, 0, 0, 0, 0, "", out...)
+	return false
 }
 
-func (s *Store) Or(args ...*Term) *Term {
-	var out []*Term
-	seen := map[uint32]bool{}
+// nary builds a flattened, de-duplicated conjunction (and=true) or disjunction.
+func (s *Store) naryBool(and bool, args []*Term) *Term {
+	op := OpOr
+	if and {
+		op = OpAnd
+	}
+	var buf [8]*Term
+	out := buf[:0]
 	for _, a := range args {
-		if a.IsTrue() {
-			return s.True
+		if a.Op == OpConst {
+			if (a.Val == 0) == and {
+				return s.Bool(!and) // absorbing element
+			}
+			continue // neutral element
 		}
-		if a.IsFalse() || seen[a.ID] {
-			continue
-		}
-		if a.Op == OpOr {
+		if a.Op == op {
 			for _, b := range a.Args {
-				if !seen[b.ID] {
-					seen[b.ID] = true
+				if !containsID(out, b.ID) {
 					out = append(out, b)
 				}
 			}
 			continue
 		}
-		seen[a.ID] = true
-		out = append(out, a)
+		if !containsID(out, a.ID) {
+			out = append(out, a)
+		}
 	}
-	for _, a := range out {
-		if a.Op == OpNot && seen[a.Args[0].ID] {
-			return s.True
+	if len(out) <= 64 {
+		for _, a := range out {
+			if a.Op == OpNot && containsID(out, a.Args[0].ID) {
+				return s.Bool(!and)
+			}
 		}
 	}
 	switch len(out) {
 	case 0:
-		return s.False
+		return s.Bool(and)
 	case 1:
 		return out[0]
 	}
-	return s.mk(OpOr, 0, 0, 0, 0, "", out...)
+	return s.mk(op, 0, 0, 0, 0, "", out...)
 }
+
+func (s *Store) And(args ...*Term) *Term { return s.naryBool(true, args) }
+func (s *Store) Or(args ...*Term) *Term  { return s.naryBool(false, args) }
 
 func (s *Store) Implies(a, b *Term) *Term { return s.Or(s.Not(a), b) }
 
@@ -707,6 +715,154 @@ func Eval(t *Term, m map[string]uint64, memo map[uint32]uint64) uint64 {
 		r = evalOp(t.Op, t.W, t.Hi, t.Lo, t.Args[0].W, vals)
 	}
 	memo[t.ID] = r
+	return r
+}
+
+// Size is the number of terms interned so far.
+func (s *Store) Size() int { return int(s.next) }
+
+// Subst replaces variables by terms (sub maps variable name -> replacement),
+// re-simplifying on the way up.
+func (s *Store) Subst(t *Term, sub map[string]*Term, memo map[uint32]*Term) *Term {
+	if t.Op == OpConst {
+		return t
+	}
+	if t.SV == nil && !t.MV {
+		return t
+	}
+	if r, ok := memo[t.ID]; ok {
+		return r
+	}
+	var r *Term
+	if t.Op == OpVar {
+		if x, ok := sub[t.Name]; ok {
+			r = x
+		} else {
+			r = t
+		}
+		memo[t.ID] = r
+		return r
+	}
+	args := make([]*Term, len(t.Args))
+	changed := false
+	for i, a := range t.Args {
+		args[i] = s.Subst(a, sub, memo)
+		if args[i] != a {
+			changed = true
+		}
+	}
+	if !changed {
+		memo[t.ID] = t
+		return t
+	}
+	switch t.Op {
+	case OpNot:
+		r = s.Not(args[0])
+	case OpAnd:
+		r = s.And(args...)
+	case OpOr:
+		r = s.Or(args...)
+	case OpIte:
+		r = s.Ite(args[0], args[1], args[2])
+	case OpEq:
+		r = s.Eq(args[0], args[1])
+	case OpBNot, OpNeg:
+		r = s.Un(t.Op, args[0])
+	case OpExtract:
+		r = s.Extract(args[0], t.Hi, t.Lo)
+	case OpZExt:
+		r = s.ZExt(args[0], t.W)
+	case OpSExt:
+		r = s.SExt(args[0], t.W)
+	case OpConcat:
+		r = s.Concat(args[0], args[1])
+	default:
+		r = s.Bin(t.Op, args[0], args[1])
+	}
+	memo[t.ID] = r
+	return r
+}
+
+// Evaluator evaluates terms of one Store with an allocation-free memo
+// (generation-stamped slices indexed by term ID).
+type Evaluator struct {
+	vals []uint64
+	gens []uint32
+	gen  uint32
+}
+
+// NewGen invalidates the memo (call when the model changes).
+func (e *Evaluator) NewGen() {
+	e.gen++
+	if e.gen == 0 {
+		for i := range e.gens {
+			e.gens[i] = 0
+		}
+		e.gen = 1
+	}
+}
+
+func (e *Evaluator) grow(id uint32) {
+	if int(id) >= len(e.gens) {
+		n := int(id)*2 + 64
+		nv := make([]uint64, n)
+		ng := make([]uint32, n)
+		copy(nv, e.vals)
+		copy(ng, e.gens)
+		e.vals, e.gens = nv, ng
+	}
+}
+
+// Eval evaluates t under model m, with variable ov (may be nil) forced to ovVal.
+func (e *Evaluator) Eval(t *Term, m map[string]uint64, ov *Term, ovVal uint64) uint64 {
+	if t.Op == OpConst {
+		return t.Val
+	}
+	e.grow(t.ID)
+	if e.gens[t.ID] == e.gen {
+		return e.vals[t.ID]
+	}
+	var r uint64
+	switch t.Op {
+	case OpVar:
+		if t == ov {
+			r = ovVal & mask(t.W)
+		} else {
+			r = m[t.Name] & mask(t.W)
+		}
+	case OpIte:
+		if e.Eval(t.Args[0], m, ov, ovVal) != 0 {
+			r = e.Eval(t.Args[1], m, ov, ovVal)
+		} else {
+			r = e.Eval(t.Args[2], m, ov, ovVal)
+		}
+	case OpAnd:
+		r = 1
+		for _, a := range t.Args {
+			if e.Eval(a, m, ov, ovVal) == 0 {
+				r = 0
+				break
+			}
+		}
+	case OpOr:
+		r = 0
+		for _, a := range t.Args {
+			if e.Eval(a, m, ov, ovVal) != 0 {
+				r = 1
+				break
+			}
+		}
+	default:
+		var buf [3]uint64
+		vals := buf[:len(t.Args)]
+		for i, a := range t.Args {
+			vals[i] = e.Eval(a, m, ov, ovVal)
+		}
+		r = evalOp(t.Op, t.W, t.Hi, t.Lo, t.Args[0].W, vals)
+	}
+	e.grow(t.ID)
+	e.vals[t.ID] = r
+	e.gens[t.ID] = e.gen
 	return r
 }
 
